@@ -120,6 +120,15 @@ pub trait Property: Sync {
     fn isolated(&self) -> bool {
         false
     }
+    /// isolated mode: every `probe_interval` runs the child calls `child_probe`; if it returns
+    /// true (e.g. the leak sanitizer found something) the runs since the last clean probe are
+    /// explored again with `Explorer::deep` set, so the property can attribute the problem
+    fn probe_interval(&self) -> u64 {
+        0
+    }
+    fn child_probe(&self) -> bool {
+        false
+    }
     /// clauses that depend on measured time: a failure that does not reproduce on replay is
     /// counted as noise instead of being a harness error
     fn noisy_clause(&self, _clause: &str) -> bool {
@@ -154,6 +163,8 @@ pub struct Explorer<'a> {
     pub sample_budget: usize,
     /// print the case to stdout before executing it (isolated mode)
     pub intent: bool,
+    /// second pass after a positive child probe: attribute the problem scenario by scenario
+    pub deep: bool,
 }
 
 impl Explorer<'_> {
@@ -635,6 +646,7 @@ pub fn explore_batch(prop: &dyn Property, tier: Tier, seed: u64, runs: u64, nwor
                         slot: Some(slot.clone()),
                         sample_budget: if run < 3 { 1 } else { 0 },
                         intent: false,
+                        deep: false,
                     };
                     prop.explore(&mut rng, tier, &mut ex);
                     results.lock().unwrap().push((run, ex));
@@ -941,6 +953,7 @@ pub fn explore_child(prop: &dyn Property, tier: Tier, seed: u64, from: u64, to: 
     struct IntentSlot;
     let out = std::io::stdout();
     let mut total = Stats::default();
+    let mut last_clean = from;
     for run in from..to {
         let mut rng = Rng::new(seed, prop.id(), run);
         let mut ex = Explorer {
@@ -953,8 +966,29 @@ pub fn explore_child(prop: &dyn Property, tier: Tier, seed: u64, from: u64, to: 
             slot: None,
             sample_budget: if run < 3 { 1 } else { 0 },
             intent: true,
+            deep: false,
         };
         prop.explore(&mut rng, tier, &mut ex);
+        let interval = prop.probe_interval();
+        if interval > 0 && ((run + 1 - from) % interval == 0 || run + 1 == to) {
+            if prop.child_probe() {
+                for r2 in last_clean..=run {
+                    let mut rng2 = Rng::new(seed, prop.id(), r2);
+                    let mut ex2 = Explorer { prop, stats: Stats::default(), fails: vec![], harness_errors: vec![], run: r2, tier, slot: None, sample_budget: 0, intent: true, deep: true };
+                    prop.explore(&mut rng2, tier, &mut ex2);
+                    let found = !ex2.fails.is_empty();
+                    ex.fails.extend(ex2.fails);
+                    if found {
+                        // one attributed scenario is enough (each deep check is expensive)
+                        break;
+                    }
+                }
+                if ex.fails.is_empty() {
+                    ex.harness_errors.push(format!("child probe positive after runs {last_clean}..={run} but no scenario reproduced it"));
+                }
+            }
+            last_clean = run + 1;
+        }
         let mut o = out.lock();
         for (c, f) in &ex.fails {
             let _ = writeln!(o, "F {}", json!({"run": run, "case": c, "clause": f.clause, "detail": f.detail, "known": f.known}));
